@@ -333,6 +333,31 @@ pub fn c05(ctx: &Ctx, rep: &mut Report) {
     rep.assumptions = sim_assumptions();
     let sh = Shape { max_streams: 3, max_wops: 8, allow_empty: true, allow_drop: true, complete: false, small_windows: true, max_sched: 400 };
     ctx.prop(rep, "eos", ctx.tier.pick(80_000, 3_000_000), 300, || stream_workload(sh), run_c05);
+    // the same histories with the connection ending at a generated step (handle dropped on either side, or Close from the peer):
+    // data that reached the endpoint must still be readable before end-of-stream
+    ctx.prop(
+        rep,
+        "eos-connection-end",
+        ctx.tier.pick(40_000, 1_500_000),
+        200,
+        || {
+            (stream_workload(sh), 0u32..160, 0usize..4).prop_map(|(mut c, step, kind)| {
+                let what = match kind {
+                    0 => What::DropMux { side: 0 },
+                    1 => What::DropMux { side: 1 },
+                    2 => What::Inject { from: 1, msg: RawMsg::Close },
+                    _ => What::Inject { from: 0, msg: RawMsg::Close },
+                };
+                c.events = vec![RawEvent { when: Trigger::FromStep(step), what }];
+                c
+            })
+        },
+        |c| {
+            let mut o = run_c05(c);
+            o.classes.push("connection-ended");
+            o
+        },
+    );
     // directed family: write/empty-write/write, in every position, all four write flavours
     ctx.enumerate(rep, "empty-write-directed", 4 * 3 * 2, 10, |i| {
         let flavour = i % 4;
